@@ -29,7 +29,7 @@ Print Assumptions C03_stdlib_escape_loses_cr.
    in_tail / tail are restored (stack discipline), no Python exception is raised *)
 Theorem C03_WInv_preserved : forall i m ps pp it,
   item_ok i = true ->
-  (match i with IData v => data_plain v && (negb it || value_falsy v) | _ => true end) = true ->
+  (match i with IData v => data_plain v | _ => true end) = true ->
   wrun (steady m ps pp it) (flatten i) = (steady m ps pp (is_data i), flat_map sflat (wref m i), None).
 Proof. exact item_runs_all. Qed.
 Print Assumptions C03_WInv_preserved.
@@ -98,7 +98,7 @@ Print Assumptions C03_lxml_sound_unguarded_refuted.
 
 Theorem C03_user_prefix_xml_refuted :
   clause_vector default_config w_user_prefix_xml_user w_user_prefix_xml_evs
-  = [false; true; true; true; true; true; true; true; true]
+  = [false; true; true; true; true; true; true; true]
   /\ native_sound_b default_config w_user_prefix_xml_user w_user_prefix_xml_evs = false.
 Proof. exact user_prefix_xml_refuted. Qed.
 Print Assumptions C03_user_prefix_xml_refuted.
@@ -134,29 +134,22 @@ Theorem C03_non_xml_char_refuted :
 Proof. exact non_xml_char_refuted. Qed.
 Print Assumptions C03_non_xml_char_refuted.
 
-Theorem C03_adjacent_data_refuted :
-  only_clause_fails 4 (clause_vector default_config w_adjacent_data_user w_adjacent_data_evs) = true
-  /\ native_sound_b default_config w_adjacent_data_user w_adjacent_data_evs = false
-  /\ lxml_sound_b default_config w_adjacent_data_user w_adjacent_data_evs = false.
-Proof. exact adjacent_data_refuted. Qed.
-Print Assumptions C03_adjacent_data_refuted.
-
 Theorem C03_late_qname_data_refuted :
-  only_clause_fails 5 (clause_vector default_config w_late_qname_data_user w_late_qname_data_evs) = true
+  only_clause_fails 4 (clause_vector default_config w_late_qname_data_user w_late_qname_data_evs) = true
   /\ native_sound_b default_config w_late_qname_data_user w_late_qname_data_evs = false
   /\ lxml_sound_b default_config w_late_qname_data_user w_late_qname_data_evs = false.
 Proof. exact late_qname_data_refuted. Qed.
 Print Assumptions C03_late_qname_data_refuted.
 
 Theorem C03_nil_kept_with_content_refuted :
-  only_clause_fails 6 (clause_vector default_config w_nil_kept_with_content_user w_nil_kept_with_content_evs) = true
+  only_clause_fails 5 (clause_vector default_config w_nil_kept_with_content_user w_nil_kept_with_content_evs) = true
   /\ native_sound_b default_config w_nil_kept_with_content_user w_nil_kept_with_content_evs = false
   /\ lxml_sound_b default_config w_nil_kept_with_content_user w_nil_kept_with_content_evs = false.
 Proof. exact nil_kept_with_content_refuted. Qed.
 Print Assumptions C03_nil_kept_with_content_refuted.
 
 Theorem C03_clark_datatype_text_refuted :
-  only_clause_fails 7 (clause_vector default_config w_clark_datatype_text_user w_clark_datatype_text_evs) = true
+  only_clause_fails 6 (clause_vector default_config w_clark_datatype_text_user w_clark_datatype_text_evs) = true
   /\ native_sound_b default_config w_clark_datatype_text_user w_clark_datatype_text_evs = false
   /\ lxml_sound_b default_config w_clark_datatype_text_user w_clark_datatype_text_evs = false.
 Proof. exact clark_datatype_text_refuted. Qed.
@@ -182,6 +175,12 @@ Example C03_default_ns_attribute_fixed :
   /\ lxml_sound_b default_config w_default_ns_attribute_user w_default_ns_attribute_evs = true.
 Proof. exact default_ns_attribute_fixed. Qed.
 Print Assumptions C03_default_ns_attribute_fixed.
+Example C03_adjacent_data_fixed :
+  writer_guard default_config w_adjacent_data_user w_adjacent_data_evs = true
+  /\ native_sound_b default_config w_adjacent_data_user w_adjacent_data_evs = true
+  /\ lxml_sound_b default_config w_adjacent_data_user w_adjacent_data_evs = true.
+Proof. exact adjacent_data_fixed. Qed.
+Print Assumptions C03_adjacent_data_fixed.
 Example C03_cr_in_text_fixed :
   writer_guard default_config [] w_cr_in_text_evs = true
   /\ native_sound_b default_config [] w_cr_in_text_evs = true
